@@ -63,7 +63,7 @@ def generate(rng, tier, idx):
     if rng.random() < 0.03:
         # a grid with more models than any plausible internal block size (cube format keeps this cheap)
         w.update(format=2, n_models=rng.choice([1100, 2100]), n_wav=6, asc_per_file=None, mixed=None, zero_band=None, gz=False, subdir=0)
-        w['flux_unit'] = 'mJy' if w['flux_unit'] not in ('mJy', 'Jy') else w['flux_unit']
+        w['flux_unit'] = 'mJy' if w['flux_unit'] not in ('mJy', 'Jy', 'MJY', 'MJy', 'uJy') else w['flux_unit']
     nf = len(w['filters'])
     nsrc = rng.randint(1, 4)
     sc = {'world': w,
